@@ -441,18 +441,21 @@ type JumpRel struct {
 
 // Set the Arg from the Jump Label
 func (o *JumpRel) Resolve() {
-	currentSize := o.Size()
-	currentPos := o.Pos() + currentSize
+	currentPos := o.Pos() + o.Size()
 	if o.Dest.Pos() < currentPos {
-		panic("JUMP_FORWARD can't jump backwards")
+		// The destination lies later in the stream, so within a pass
+		// in which earlier instructions grew its position is still the
+		// one of the previous pass; the next pass resolves it.
+		o.OpArg.Arg = 0
+		return
 	}
 	o.OpArg.Arg = o.Dest.Pos() - currentPos
-	if o.Size() != currentSize {
-		// FIXME There is an awkward moment where jump forwards is
-		// between 0x1000 and 0x1002 where the Arg oscillates
-		// between 2 and 4 bytes
-		panic("FIXME compile: JUMP_FOWARDS size changed")
-	}
+	// If the offset no longer fits in 16 bits the instruction grows by
+	// an EXTENDED_ARG.  Everything after it, including the
+	// destination, moves by the same amount, so the offset relative to
+	// the new end of the instruction is unchanged; the next pass (which
+	// always follows, since positions changed) settles the addresses.
+	// Offsets only ever grow from pass to pass, so this cannot oscillate.
 }
 
 // Creates the lnotab from the instruction stream
